@@ -208,8 +208,10 @@ def _run_check(cid, tier, spec, workdir, tmp, t_start):
         })
         if spec.get("memlimit"):
             env["GOMEMLIMIT"] = spec["memlimit"]
-        if spec.get("rss_limit_mb"):
-            env["VERIF_RSS_LIMIT_MB"] = str(spec["rss_limit_mb"])
+        # every shard process has a memory budget (harnesses leak a little of the code under test
+        # with every engine instance): reaching it ends the shard like a deadline does, instead of
+        # sixteen growing processes being killed by the kernel
+        env["VERIF_RSS_LIMIT_MB"] = str(spec.get("rss_limit_mb", 3000))
         log = open(os.path.join(workdir, "shard-%d.log" % i), "w")
         args = [binary, "-test.run", "^TestCheck$", "-test.timeout", "0", "-test.count", "1"]
         p = subprocess.Popen(args, cwd=workdir, env=env, stdout=log, stderr=subprocess.STDOUT)
